@@ -4,6 +4,7 @@ import (
 	"fmt"
 	"strings"
 
+	"github.com/jotaen/klog/klog"
 	"github.com/jotaen/klog/klog/parser"
 	"github.com/jotaen/klog/klog/parser/reconciling"
 	"github.com/jotaen/klog/klog/parser/txt"
@@ -169,7 +170,31 @@ func runC08(env *Env, data map[string]any) *Outcome {
 			}
 		}
 	})
-	_ = valid
+	// the same on the blocks of the parallel parser (what klog uses on a multi-core machine)
+	if valid {
+		for _, n := range []int{2, 3, 5} {
+			var prs []klog.Record
+			var ppbs []txt.Block
+			var perrs []txt.Error
+			if p := safely(func() { prs, ppbs, perrs = parser.NewParallelParser(n).Parse(text) }); p != "" {
+				o.Findings = append(o.Findings, Finding{Kind: "D", What: fmt.Sprintf("parallel parser (%d workers) panics: %s", n, p)})
+				break
+			}
+			o.Evals++
+			if perrs != nil {
+				o.Findings = append(o.Findings, Finding{Kind: "D", What: fmt.Sprintf("parallel parser (%d workers) rejects a text the serial parser accepts", n), Impl: canonErrs(perrs)})
+				break
+			}
+			if v := checkBlocksReproduce(text, ppbs); v != "" {
+				o.Findings = append(o.Findings, Finding{Kind: "D", What: fmt.Sprintf("parallel parser (%d workers) blocks: %s", n, v), Impl: canonBlocks(ppbs)})
+				break
+			}
+			if len(ppbs) != len(prs) {
+				o.Findings = append(o.Findings, Finding{Kind: "D", What: fmt.Sprintf("parallel parser (%d workers): %d records but %d blocks", n, len(prs), len(ppbs))})
+				break
+			}
+		}
+	}
 	if str(data, "src") != "enum" {
 		o.Sample = map[string]any{"text": short(text, 120)}
 	}
